@@ -75,12 +75,15 @@ def rule_offset_primitives(ctx: Ctx, prog: Program) -> None:
                 continue
             e = stores[0]
             got_val = e.value if isinstance(e.value, Aff) else it.scalar(r.state, e.value)
+            # which half of the obligation fails decides which properties it concerns: the strictness of the move (a constant difference) and the
+            # bound written are optimisation / termination matters; the offset and the shared-domain index are also encoding matters (C13)
+            idx_ok = e.root == st_ and len(e.idx) == 3 and e.idx[0] == exp_idx[0] and e.idx[1] == exp_idx[1]
             if not (e.root == st_ and tuple(e.idx) == exp_idx):
-                ctx.violation("R-OFFSET-ROUNDTRIP", fn.path, name, "cell", f"{fn.path}:{e.line}",
+                ctx.violation("R-OFFSET-ROUNDTRIP", fn.path, name, "cell-bound" if idx_ok else "cell-index", f"{fn.path}:{e.line}",
                               f"{name} stores into {View(e.root, e.idx)!r}; expected the {'MAX' if bound == MAX else 'MIN'} bound of the shared "
                               "domain of the variable (dom_indices[var]) at the current level")
             elif not (got_val == exp_val):
-                ctx.violation("R-OFFSET-ROUNDTRIP", fn.path, name, "value", f"{fn.path}:{e.line}",
+                ctx.violation("R-OFFSET-ROUNDTRIP", fn.path, name, "value-strictness" if (got_val - exp_val).is_const() else "value-offset", f"{fn.path}:{e.line}",
                               f"{name} stores {show_val(got_val)}; expected value {delta:+d} - dom_offsets[var] (= {show_val(exp_val)}): the bound must "
                               "move exactly one past the incumbent, in shared coordinates")
             else:
